@@ -77,7 +77,10 @@ func (s *jobSnapshot) addSourceRunnerSnapshot(ckpt *jobpb.SourceRunnerCheckpoint
 		return fmt.Errorf("received source runner checkpoint with unknown id id=%s, expectedIDs=%v", ckpt.SourceRunnerId, ids)
 	}
 	if wasCompleted {
+		// Keep the split states of the first acknowledgement only. Appending the
+		// states of a repeated acknowledgement would record splits twice.
 		slog.Warn("received another source runner checkpoint from same id", "id", ckpt.SourceRunnerId)
+		return nil
 	}
 
 	s.sourceRunnerIDsComplete[ckpt.SourceRunnerId] = true
